@@ -17,7 +17,12 @@ def regenerate_all():
         mod = importlib.import_module(f"py2coq.{m.name}")
         if hasattr(mod, "regenerate"):
             try:
-                msgs.append(f"{m.name}: {mod.regenerate()}")
+                import inspect
+                if len(inspect.signature(mod.regenerate).parameters) == 2:      # regenerate(repo, gen_dir)
+                    import common
+                    msgs.append(f"{m.name}: {str(mod.regenerate(common.REPO, common.GEN))[:300]}")
+                else:
+                    msgs.append(f"{m.name}: {str(mod.regenerate())[:300]}")
             except Exception as e:
                 msgs.append(f"{m.name}: ABORTED {type(e).__name__}: {e}")
     return msgs
